@@ -192,6 +192,182 @@ func ruleIndexContracts(r *Run) {
 	// ---- Q6, Q7
 	r.cellListsDisjoint(fns)
 	r.staleCellIndex(fns)
+	// ---- Q8, Q9
+	r.footprintThenCells(fns)
+	r.pointConversionsVerbatim(fns)
+}
+
+// footprintThenCells (Q8): a function that moves or resizes a stored plane (it changes Center or Extents of a
+// quad it reaches through a pointer) brings the cells up to date before it returns: after such a change no
+// path leaves the function early. A plane whose footprint grew while its registration stayed what it was is
+// missing from the cells it now covers.
+func (r *Run) footprintThenCells(fns []*Func) {
+	n := 0
+	for _, fn := range fns {
+		if fn.Recv == nil {
+			continue
+		}
+		// only functions that also write grid cells (the ones responsible for the registration)
+		writesCells := false
+		ast.Inspect(fn.Body, func(nd ast.Node) bool {
+			if as, ok := nd.(*ast.AssignStmt); ok {
+				for _, l := range as.Lhs {
+					if gridCell(l) == 2 {
+						writesCells = true
+					}
+				}
+			}
+			return true
+		})
+		if !writesCells {
+			continue
+		}
+		var last ast.Stmt
+		if len(fn.Body.List) > 0 {
+			last = fn.Body.List[len(fn.Body.List)-1]
+		}
+		isFootprint := func(c string) bool {
+			return strings.HasPrefix(c, "param:#") && (strings.HasSuffix(c, ".Center") || strings.HasSuffix(c, ".Extents") || strings.Contains(c, ".Center.") || strings.Contains(c, ".Extents."))
+		}
+		paths := r.Paths(fn)
+		if len(paths) > 6000 {
+			paths = paths[:6000]
+		}
+		for pi := range paths {
+			path := &paths[pi]
+			r.at(path)
+			changed := token.NoPos
+			for _, ev := range path.Events {
+				if ev.Fn != fn {
+					continue
+				}
+				switch ev.Kind {
+				case EvCall:
+					if ev.Recv != nil && ev.Callee != nil {
+						if f, ok := ev.Callee.(*types.Func); ok && f.Pkg() != nil && f.Pkg().Path() == pkgDagaz {
+							if sig := f.Type().(*types.Signature); sig.Recv() != nil {
+								if _, ptr := sig.Recv().Type().(*types.Pointer); ptr && isFootprint(r.P.Canon(ev.Fn, ev.Recv)) {
+									// a pointer-receiver method of the package on the plane's centre / extents that writes it
+									if g := r.P.Funcs[f]; g != nil && assignsOwnFields(g) {
+										changed = ev.Pos
+									}
+								}
+							}
+						}
+					}
+				case EvAssign:
+					for _, l := range ev.Lhs {
+						if isFootprint(r.P.Canon(ev.Fn, l)) {
+							changed = ev.Pos
+						}
+					}
+				case EvReturn:
+					if changed.IsValid() && ev.Depth == 0 {
+						n++
+						early := false
+						if rs, ok := ev.Node.(*ast.ReturnStmt); ok && ast.Stmt(rs) != last && last != nil && rs.Pos() < last.End() {
+							early = true // (an explicit return before the end of the body; the closing brace is not)
+						}
+						r.CheckT("Q8", fn.Name+":cells-follow-footprint", !early, ev.Pos, path,
+							"the footprint of a stored plane was changed (Center / Extents) and the function returns here before the cell updates that follow: the plane stays registered in its old cells only")
+					}
+				}
+			}
+		}
+	}
+	r.Floor("Q8", "returns after a footprint change", n, 1)
+}
+
+// assignsOwnFields: the method assigns fields of its receiver.
+func assignsOwnFields(g *Func) bool {
+	found := false
+	ast.Inspect(g.Body, func(nd ast.Node) bool {
+		check := func(x ast.Expr) {
+			if se, ok := ast.Unparen(x).(*ast.SelectorExpr); ok {
+				if id, ok := ast.Unparen(se.X).(*ast.Ident); ok && g.Recv != nil && g.Info().Uses[id] == g.Recv {
+					found = true
+				}
+			}
+		}
+		switch v := nd.(type) {
+		case *ast.AssignStmt:
+			for _, l := range v.Lhs {
+				check(l)
+			}
+		case *ast.IncDecStmt:
+			check(v.X)
+		}
+		return true
+	})
+	return found
+}
+
+// pointConversionsVerbatim (Q9): the conversions between a protobuf point and the package's vector copy the
+// three components as they are. A conversion that "cleans" a component (clamps it, replaces a non-finite value)
+// changes what every caller — samples, rays, region bounds — means by the same message.
+func (r *Run) pointConversionsVerbatim(fns []*Func) {
+	n := 0
+	for _, fn := range fns {
+		if fn.Obj == nil {
+			continue
+		}
+		sig := fn.Obj.Type().(*types.Signature)
+		if sig.Results().Len() != 1 {
+			continue
+		}
+		var in types.Type
+		src := ""
+		switch {
+		case sig.Recv() != nil && sig.Params().Len() == 0:
+			in, src = sig.Recv().Type(), "recv"
+		case sig.Recv() == nil && sig.Params().Len() == 1:
+			in, src = sig.Params().At(0).Type(), "param:#0"
+		default:
+			continue
+		}
+		out := sig.Results().At(0).Type()
+		isVec := func(t types.Type) bool {
+			if p, ok := t.Underlying().(*types.Pointer); ok {
+				t = p.Elem()
+			}
+			st, ok := t.Underlying().(*types.Struct)
+			if !ok || st.NumFields() != 3 {
+				return false
+			}
+			nt, ok := t.(*types.Named)
+			return ok && nt.Obj().Pkg() != nil && nt.Obj().Pkg().Path() == pkgDagaz && isFloat(st.Field(0).Type()) && isFloat(st.Field(1).Type()) && isFloat(st.Field(2).Type())
+		}
+		if !(isVec(in) && isPBPoint(out)) && !(isPBPoint(in) && isVec(out)) {
+			continue
+		}
+		for _, path := range r.Paths(fn) {
+			path := path
+			r.at(&path)
+			for _, ev := range path.Events {
+				if ev.Kind != EvReturn || ev.Depth != 0 || len(ev.Results) != 1 {
+					continue
+				}
+				lit, lfn := r.P.compositeOfIn(fn, ev.Results[0])
+				if lit == nil {
+					n++
+					r.CheckT("Q9", fn.Name+":verbatim", false, ev.Pos, &path, "the conversion does not return a literal built from the three components")
+					continue
+				}
+				for i, el := range lit.Elts {
+					v := el
+					if kv, ok := el.(*ast.KeyValueExpr); ok {
+						v = kv.Value
+					}
+					c := r.P.Canon(lfn, v)
+					n++
+					ok := strings.HasPrefix(c, src+".") && !strings.ContainsAny(c[len(src)+1:], ".([ ")
+					r.CheckT("Q9", fmt.Sprintf("%s:verbatim[%d]", fn.Name, i), ok, v.Pos(), &path,
+						"component %d of the converted point is %q, not the corresponding component of the value handed in as it is", i, c)
+				}
+			}
+		}
+	}
+	r.Floor("Q9", "components of point conversions", n, 6)
 }
 
 // isKeysFunc: a one-parameter function that ranges over its (map) parameter by key only and has no other
